@@ -29,12 +29,13 @@ impl HybridClock for StepClock {
 fn triple(n: u32) -> Triple { Triple { subject: n, predicate: 10, object: 20 } }
 
 #[derive(Clone, Debug)]
-enum F { L(usize), And(Vec<F>), Or(Vec<F>) }
+enum F { L(usize), And(Vec<F>), Or(Vec<F>), Not(Box<F>) }
 fn build(store: &mut LineageStore, ids: &[SeedId], f: &F) -> LineageId {
     match f {
         F::L(i) => store.literal(ids[*i]),
         F::And(v) => { let c: Vec<_> = v.iter().map(|x| build(store, ids, x)).collect(); store.and(c) }
         F::Or(v) => { let c: Vec<_> = v.iter().map(|x| build(store, ids, x)).collect(); store.or(c) }
+        F::Not(x) => { let c = build(store, ids, x); store.not(c) }
     }
 }
 fn truth(store: &LineageStore, id: LineageId, world: &HashMap<SeedId, bool>) -> bool {
@@ -176,4 +177,45 @@ const KS: [(usize, usize); 7] = [(1, 1), (1, 2), (1, 4), (2, 2), (2, 8), (3, 3),
             }
         }
     }
+}
+
+// ---- lineages with negation and empty connectives, seeds with probability 0 and 1 ---------------------------------------
+fn special_formulas() -> Vec<F> {
+    use F::*;
+    let l = |i| L(i);
+    vec![
+        Not(Box::new(l(0))), Or(vec![l(0), Not(Box::new(l(1)))]), And(vec![l(0), Not(Box::new(l(1)))]), And(vec![l(0), Not(Box::new(l(0)))]), Or(vec![l(0), Not(Box::new(l(0)))]),
+        Not(Box::new(Or(vec![l(0), l(1)]))), Not(Box::new(And(vec![l(0), l(1), l(2)]))), Or(vec![And(vec![l(0), Not(Box::new(l(1)))]), And(vec![l(1), Not(Box::new(l(2)))]), l(3)]),
+        And(vec![]), Or(vec![]), Or(vec![l(0), And(vec![])]), And(vec![l(0), Or(vec![])]), Or(vec![l(1), l(2), l(3), l(4), And(vec![l(0), Not(Box::new(l(4)))])]),
+    ]
+}
+const SPECIAL_PROBS: [[f64; 5]; 3] = [[0.0, 1.0, 0.5, 0.3, 0.08], [1.0, 1.0, 0.0, 0.0, 0.5], [0.08, 0.08, 0.08, 0.08, 0.08]];
+
+#[test] fn w__hybrid__negation_empty_connectives_and_certain_seeds() {
+    let mut all = special_formulas();
+    all.extend(formulas().into_iter().step_by(4));
+    // many proofs of equal small weight: the case where residual mass decides (k + 2 or more minimal proofs)
+    all.push(F::Or((0..5).map(F::L).collect()));
+    for (fi, f) in all.iter().enumerate() { for probs in &SPECIAL_PROBS {
+        let (store, seeds, root) = fixture(f, probs);
+        let truth = brute_force(&store, &seeds, root);
+        for k in 1..=6 {
+            if let Ok(e) = evaluate_topk(&store, &seeds, root, k, Duration::from_secs(3600), 100_000) {
+                assert!(e.interval.lower - 1e-9 <= truth && truth <= e.interval.upper + 1e-9,
+                    "formula #{} {:?} probs {:?} k={}: top-k interval [{}, {}] does not contain the true probability {}", fi, f, probs, k, e.interval.lower, e.interval.upper, truth);
+            }
+        }
+        let store = Arc::new(Mutex::new(store));
+        let seeds = Arc::new(seeds);
+        let clock = FrozenClock(Instant::now());
+        for (k_initial, k_max) in KS {
+            for threshold in [truth - 0.05, truth - 1e-6, truth, truth + 1e-6, truth + 0.05, 0.0, 1.0, 0.38, 0.3] {
+                if !(0.0..=1.0).contains(&threshold) { continue; }
+                let config = HybridConfig { threshold, k_initial, k_max, ..HybridConfig::default() };
+                if config.validate().is_err() { continue; }
+                let result = evaluate_hybrid_with_clock(&store, &seeds, root, &config, &clock);
+                sound(&result, truth, threshold, &format!("formula #{} {:?} probs {:?} k_initial={} k_max={} threshold={}", fi, f, probs, k_initial, k_max, threshold));
+            }
+        }
+    }}
 }
